@@ -69,7 +69,12 @@ fn fval(f: f64) -> Value {
     if t.is_finite() && t.fract() == 0.0 && t.abs() < 1.0e9 {
         json!({"t": "f", "v": t as i64})
     } else {
-        json!({"t": "x", "v": format!("{f:?}")})
+        // not a multiple of 1/2: opaque to the specification, but `fl` = floor(2f) still places it in the order
+        if t.is_finite() && t.abs() < 1.0e9 {
+            json!({"t": "x", "v": format!("{f:?}"), "fl": t.floor() as i64})
+        } else {
+            json!({"t": "x", "v": format!("{f:?}")})
+        }
     }
 }
 
